@@ -613,6 +613,13 @@ func buildSetEvents(id string, task *Task, updates map[string]string, agentID st
 		stateWasSet = true
 	}
 
+	// Clearing the claim without a state change must not leave a state that requires a claim.
+	if claimWasSet && claimValue == "" && !stateWasSet {
+		if err := validateClaimInvariant(task.State, ""); err != nil {
+			return nil, nil, err
+		}
+	}
+
 	// If claim was set to a non-empty value and state wasn't explicitly set, default to doing
 	if claimWasSet && claimValue != "" && !stateWasSet {
 		// The implied transition to doing is subject to the same table as an explicit one.
